@@ -53,6 +53,15 @@ CHECKS = {
  "C17": ("exploration", "structured fuzzing with a counting global allocator (thread-local window around every reader call); dedicated generator of mutually consistent but unbacked counts",
          "Peak bytes requested during any single reader call must stay <= 64 x input + 16 KiB on every input of the C07 families and on files whose declared counts, record length, header length and index entry agree with each other but are not backed by data.",
          "Trusted: the harness allocator sees every request of the executing thread; sources are borrowed in-memory slices so only the library allocates.", "DESIGN.md §3 C17"),
+ "C08": ("exploration", "property-based testing over call histories (proptest): model of accepted pairs, independent counting of shp records / shx entries / dbf rows after every call, read-back through every complete-reader route",
+         "Histories mixing accepted writes, shapes of another type and rows dbase rejects are run through Writer (memory and both from_path routes); entry counts must stay equal after every call and every reader route must return exactly the accepted pairs in order. One open known finding (K1) is keyed on the row-rejection call class.",
+         "Trusted: dbf row counting from the dbf header's header/record length fields; dbase as the row codec.", "DESIGN.md §3 C08"),
+ "C16": ("exploration", "property-based testing (proptest): exact integer shoelace oracle on the dyadic domain, bit-level vertex-preservation oracle on all non-NaN doubles, macro-vs-constructor differential",
+         "Rings of every declared role, open/closed/degenerate, are pushed through new / with_rings / with_parts / polygon! / multipatch!; closure, vertex preservation up to whole-ring reversal, orientation by exact signed area, idempotent rebuild and untouched strips/fans are asserted.",
+         "Trusted: i128 shoelace sum; the exactness criterion for f64 evaluation in vlib/model.rs.", "DESIGN.md §3 C16"),
+ "C20": ("exploration", "property-based testing (proptest) in a separate binary built with the geo-types and geo-traits features: round-trip and grouping oracles, refusal checks under catch_unwind, geo-traits index probing",
+         "shape->geo->shape and geo->shape->geo conversions are compared coordinate by coordinate (bit patterns) and group by group; refused inputs must give Err; every index below dim().size() must be readable through nth / nth_or_panic / nth_unchecked.",
+         "Trusted: geo-types' own ring closing as reference on the geo side; orientation asserted only on exact non-zero areas.", "DESIGN.md §3 C20"),
  "C01": ("exploration", "property-based testing (proptest, seeded, shrinking): write->read round trip with an explicit normalisation model",
          "Generated shape sequences of all 13 types are written through ShapeWriter and read back through every route (generic/typed x iterate/collect/random access x with/without .shx x memory/disk); an oracle built from accessor views as f64 bit patterns decides equality. Bounded random exploration, not proof.",
          "Trusted: proptest generators, the accessor view of constructed values; ring roles asserted only where the signed area is exactly computable and non-zero.", "DESIGN.md §3 C01"),
